@@ -102,10 +102,7 @@ theorem padField_spec (front : Bool) (n k : Nat) : ∀ (f : Field) (s : St) (f' 
         · simp [he, hr.2]
         · have hne : fs'.isEmpty = false := by cases fs' <;> simp_all
           simp only [hne, Bool.false_eq_true, if_false, collLen]
-          have hfs : fs ≠ [] := fun h0 => he ((SameShapes.nil_iff sh).mpr h0)
-          have hd : Field.lenDef.headDef fs' = true :=
-            WFFs.headDef fs' (SameShapes.wffs fs fs' sh hw.2) he
-          exact RectFields.len fs' r1 hd
+          exact RectFields.len fs' r1 he
 theorem padFields_spec (front : Bool) (n k : Nat) : ∀ (fs : List Field) (s : St) (fs' : List Field) (s' : St),
     padField.padFields front k fs s = .ok (fs', s') → MemoGood (n + k) s → RectField.RectFields s.heap n fs →
     WFF.WFFs fs →
@@ -126,7 +123,7 @@ theorem padFields_spec (front : Bool) (n k : Nat) : ∀ (fs : List Field) (s : S
         obtain ⟨rfl, rfl⟩ := h
         simp only [RectField.RectFields] at hr
         simp only [WFF.WFFs] at hw
-        obtain ⟨⟨e1, m1⟩, r1, sh1⟩ := padField_spec front n k f s f1 s1 h1 hm hr.1 hw.1.1
+        obtain ⟨⟨e1, m1⟩, r1, sh1⟩ := padField_spec front n k f s f1 s1 h1 hm hr.1 hw.1
         obtain ⟨⟨e2, m2⟩, r2, sh2⟩ := padFields_spec front n k fs s1 fs1 s2 h2 m1 (RectFields.ext e1 fs hr.2) hw.2
         refine ⟨⟨e1.trans e2, m2⟩, ?_, ?_⟩
         · simp only [RectField.RectFields]; exact ⟨RectField.ext e2 f1 r1, r2⟩
@@ -294,30 +291,30 @@ theorem setField_ne_nil (acc : List Field) (f : Field) : setField acc f ≠ [] :
 
 /-- `done` names have been handled (their fields have `n + m` rows), the others are still the
 `n`-row fields of `self` -/
-structure AccInv (h : Heap) (n m : Nat) (deep : Bool) (selfKeys : List String) (done : String → Prop)
+structure AccInv (h : Heap) (n m : Nat) (selfKeys : List String) (done : String → Prop)
     (acc : List Field) : Prop where
   nodup : (names acc).Nodup
-  each : ∀ f ∈ acc, WFF f ∧ (deep = true → f.nonEmpty) ∧
+  each : ∀ f ∈ acc, WFF f ∧
     (done f.name → RectField h (n + m) f) ∧ (¬ done f.name → RectField h n f ∧ f.name ∈ selfKeys)
 
-theorem AccInv.ext {h h' n m deep sk done acc} (a : AccInv h n m deep sk done acc) (e : HeapExt h h') :
-    AccInv h' n m deep sk done acc :=
+theorem AccInv.ext {h h' n m sk done acc} (a : AccInv h n m sk done acc) (e : HeapExt h h') :
+    AccInv h' n m sk done acc :=
   ⟨a.nodup, fun f hf => by
-    obtain ⟨h1, h2, h3, h4⟩ := a.each f hf
-    exact ⟨h1, h2, fun hd => RectField.ext e f (h3 hd), fun hd => ⟨RectField.ext e f (h4 hd).1, (h4 hd).2⟩⟩⟩
+    obtain ⟨h1, h3, h4⟩ := a.each f hf
+    exact ⟨h1, fun hd => RectField.ext e f (h3 hd), fun hd => ⟨RectField.ext e f (h4 hd).1, (h4 hd).2⟩⟩⟩
 
 /-- one step of the loop: the field `f'` made for the name `nm` replaces / joins the dict -/
-theorem AccInv.step {h n m deep sk} {done : String → Prop} {acc : List Field} {f' : Field} {nm : String}
-    (a : AccInv h n m deep sk done acc) (hname : f'.name = nm)
-    (hw : WFF f') (hne : deep = true → f'.nonEmpty) (hr : RectField h (n + m) f') :
-    AccInv h n m deep sk (fun x => done x ∨ x = nm) (setField acc f') := by
+theorem AccInv.step {h n m sk} {done : String → Prop} {acc : List Field} {f' : Field} {nm : String}
+    (a : AccInv h n m sk done acc) (hname : f'.name = nm)
+    (hw : WFF f') (hr : RectField h (n + m) f') :
+    AccInv h n m sk (fun x => done x ∨ x = nm) (setField acc f') := by
   refine ⟨nodup_setField a.nodup, ?_⟩
   intro f hf
   rcases mem_setField_nodup a.nodup hf with rfl | ⟨hin, hneq⟩
-  · exact ⟨hw, hne, fun _ => hr, fun hd => absurd (Or.inr hname) hd⟩
-  · obtain ⟨h1, h2, h3, h4⟩ := a.each f hin
+  · exact ⟨hw, fun _ => hr, fun hd => absurd (Or.inr hname) hd⟩
+  · obtain ⟨h1, h3, h4⟩ := a.each f hin
     have hx : f.name ≠ nm := by rw [← hname]; exact hneq
-    refine ⟨h1, h2, ?_, ?_⟩
+    refine ⟨h1, ?_, ?_⟩
     · intro hd
       rcases hd with hd | hd
       · exact h3 hd
@@ -326,11 +323,11 @@ theorem AccInv.step {h n m deep sk} {done : String → Prop} {acc : List Field} 
       exact h4 (fun h0 => hd (Or.inl h0))
 
 /-- **the second loop of `Collection._extend`**: the fields the other collection lacks get `m` empty rows -/
-theorem appendLoop_spec (n m : Nat) (deep : Bool) (p : String → Bool) : ∀ (acc : List Field) (s : St)
+theorem appendLoop_spec (n m : Nat) (p : String → Bool) : ∀ (acc : List Field) (s : St)
     (acc' : List Field) (s' : St), appendLoop p m acc s = .ok (acc', s') → MemoGood (n + m) s →
-    (∀ f ∈ acc, WFF f ∧ (deep = true → f.nonEmpty) ∧ (p f.name = true → RectField s.heap n f) ∧
+    (∀ f ∈ acc, WFF f ∧ (p f.name = true → RectField s.heap n f) ∧
       (p f.name = false → RectField s.heap (n + m) f)) →
-    ExtOK (n + m) s s' ∧ (∀ f ∈ acc', WFF f ∧ (deep = true → f.nonEmpty) ∧ RectField s'.heap (n + m) f) ∧
+    ExtOK (n + m) s s' ∧ (∀ f ∈ acc', WFF f ∧ RectField s'.heap (n + m) f) ∧
       names acc' = names acc
   | [], s, acc', s', h, hm, _ => by
     simp only [appendLoop, Except.ok.injEq, Prod.mk.injEq] at h
@@ -346,7 +343,7 @@ theorem appendLoop_spec (n m : Nat) (deep : Bool) (p : String → Bool) : ∀ (a
       · rename_i fs1 s2 hrest
         simp only [Except.ok.injEq, Prod.mk.injEq] at h
         obtain ⟨rfl, rfl⟩ := h
-        obtain ⟨w, ne, hp1, hp0⟩ := hall f (by simp)
+        obtain ⟨w, hp1, hp0⟩ := hall f (by simp)
         have key : ExtOK (n + m) s s1 ∧ RectField s1.heap (n + m) f1 ∧ SameShape f f1 := by
           split at hstep
           · rename_i hp
@@ -356,13 +353,13 @@ theorem appendLoop_spec (n m : Nat) (deep : Bool) (p : String → Bool) : ∀ (a
             obtain ⟨rfl, rfl⟩ := hstep
             exact ⟨⟨HeapExt.refl _, hm⟩, hp0 (by simpa using hp), SameShape.refl _⟩
         obtain ⟨⟨e1, m1⟩, r1, sh1⟩ := key
-        obtain ⟨⟨e2, m2⟩, hall2, hn2⟩ := appendLoop_spec n m deep p fs s1 fs1 s2 hrest m1 (fun c hc => by
-          obtain ⟨a, b, c1, c0⟩ := hall c (List.mem_cons_of_mem _ hc)
-          exact ⟨a, b, fun hp => RectField.ext e1 c (c1 hp), fun hp => RectField.ext e1 c (c0 hp)⟩)
+        obtain ⟨⟨e2, m2⟩, hall2, hn2⟩ := appendLoop_spec n m p fs s1 fs1 s2 hrest m1 (fun c hc => by
+          obtain ⟨a, c1, c0⟩ := hall c (List.mem_cons_of_mem _ hc)
+          exact ⟨a, fun hp => RectField.ext e1 c (c1 hp), fun hp => RectField.ext e1 c (c0 hp)⟩)
         refine ⟨⟨e1.trans e2, m2⟩, ?_, ?_⟩
         · intro c hc
           rcases List.mem_cons.mp hc with rfl | hc
-          · exact ⟨SameShape.wff f c sh1 w, fun hd => sh1.nonEmpty (ne hd), RectField.ext e2 c r1⟩
+          · exact ⟨SameShape.wff f c sh1 w, RectField.ext e2 c r1⟩
           · exact hall2 c hc
         · simp only [names, List.map_cons] at hn2 ⊢
           rw [hn2, sh1.name]
@@ -372,11 +369,11 @@ mutual
 theorem extendField_spec (us : Units) (n m : Nat) : ∀ (g f : Field) (s : St) (f' : Field) (s' : St),
     extendField us f g s = .ok (f', s') → MemoGood (n + m) s →
     RectField s.heap n f → RectField s.heap m g → WFF f → WFF g →
-    ExtOK (n + m) s s' ∧ RectField s'.heap (n + m) f' ∧ WFF f' ∧ f'.name = f.name ∧ (f.nonEmpty → f'.nonEmpty)
+    ExtOK (n + m) s s' ∧ RectField s'.heap (n + m) f' ∧ WFF f' ∧ f'.name = f.name
   | g, .leaf nm k o no u l, s, f', s', h, hm, hrf, hrg, _, _ => by
     simp only [extendField] at h
     obtain ⟨e, r, ⟨o', no', rfl⟩⟩ := extendLeaf_spec us n m nm k o no u l g s f' s' h hm hrf hrg
-    exact ⟨e, r, by simp [WFF], rfl, fun _ => by simp [Field.nonEmpty]⟩
+    exact ⟨e, r, by simp [WFF], rfl⟩
   | .leaf .., .coll .., s, f', s', h, _, _, _, _, _ => by
     simp [extendField] at h
   | .coll nm2 no2 l2 gs, .coll nm no l fs, s, f', s', h, hm, hrf, hrg, hwf, hwg => by
@@ -386,8 +383,8 @@ theorem extendField_spec (us : Units) (n m : Nat) : ∀ (g f : Field) (s : St) (
     · rename_i fs' s2 hfin
       simp only [Except.ok.injEq, Prod.mk.injEq] at h
       obtain ⟨rfl, rfl⟩ := h
-      have hsl : collRows s.heap no fs = n := collRows_eq hrf hwf
-      have hol : collRows s.heap no2 gs = m := collRows_eq hrg hwg
+      have hsl : collRows s.heap no fs = n := collRows_eq hrf
+      have hol : collRows s.heap no2 gs = m := collRows_eq hrg
       rw [hsl, hol] at hfin
       simp only [extendFinish] at hfin
       split at hfin
@@ -400,15 +397,15 @@ theorem extendField_spec (us : Units) (n m : Nat) : ∀ (g f : Field) (s : St) (
         have hg_each := (WFFs_iff gs).mp hwg.2
         have hf_rect := (rectFields_iff fs).mp hrf.1
         have hg_rect := (rectFields_iff gs).mp hrg.1
-        have inv0 : AccInv s.heap n m true (names fs) (fun _ => False) fs :=
-          ⟨hwf.1, fun c hc => ⟨(hf_each c hc).1, fun _ => (hf_each c hc).2, fun hd => absurd hd id,
+        have inv0 : AccInv s.heap n m (names fs) (fun _ => False) fs :=
+          ⟨hwf.1, fun c hc => ⟨hf_each c hc, fun hd => absurd hd id,
             fun _ => ⟨hf_rect c hc, List.mem_map_of_mem hc⟩⟩⟩
-        obtain ⟨⟨e1, m1⟩, inv1, hne1⟩ := loop1_spec us n m true (names fs) gs (fun _ => False) fs s acc1 s1 hloop hm inv0
-          (fun g hg => ⟨hg_rect g hg, (hg_each g hg).1, fun _ => (hg_each g hg).2⟩) hwg.1 (fun g _ hd => hd)
-        obtain ⟨⟨e2, m2⟩, hall, hnames⟩ := appendLoop_spec n m true _ acc1 s1 fs' s2 hfin m1 (by
+        obtain ⟨⟨e1, m1⟩, inv1⟩ := loop1_spec us n m (names fs) gs (fun _ => False) fs s acc1 s1 hloop hm inv0
+          (fun g hg => ⟨hg_rect g hg, hg_each g hg⟩) hwg.1 (fun g _ hd => hd)
+        obtain ⟨⟨e2, m2⟩, hall, hnames⟩ := appendLoop_spec n m _ acc1 s1 fs' s2 hfin m1 (by
           intro c hc
-          obtain ⟨c1, c2, c3, c4⟩ := inv1.each c hc
-          refine ⟨c1, c2, ?_, ?_⟩
+          obtain ⟨c1, c3, c4⟩ := inv1.each c hc
+          refine ⟨c1, ?_, ?_⟩
           · intro hp
             by_cases hd : (False ∨ c.name ∈ names gs)
             · have hd' : c.name ∈ names gs := by simpa using hd
@@ -433,35 +430,28 @@ theorem extendField_spec (us : Units) (n m : Nat) : ∀ (g f : Field) (s : St) (
               · exact h0 hin
               · exact hd' h0)
         have hnd : (names fs').Nodup := by rw [hnames]; exact inv1.nodup
-        have hwffs : WFF.WFFs fs' := (WFFs_iff fs').mpr (fun c hc => ⟨(hall c hc).1, (hall c hc).2.1 rfl⟩)
-        have hrects : RectField.RectFields s2.heap (n + m) fs' := (rectFields_iff fs').mpr (fun c hc => (hall c hc).2.2)
-        have hne : fs ≠ [] → fs' ≠ [] := by
-          intro h0 h1
-          have : names acc1 = [] := by rw [← hnames, h1]; rfl
-          have : acc1 = [] := by cases acc1 <;> simp_all [names]
-          exact hne1 h0 this
-        refine ⟨⟨e1.trans e2, m2⟩, ?_, ?_, rfl, ?_⟩
+        have hwffs : WFF.WFFs fs' := (WFFs_iff fs').mpr (fun c hc => (hall c hc).1)
+        have hrects : RectField.RectFields s2.heap (n + m) fs' := (rectFields_iff fs').mpr (fun c hc => (hall c hc).2)
+        refine ⟨⟨e1.trans e2, m2⟩, ?_, ?_, rfl⟩
         · simp only [RectField]
           refine ⟨hrects, ?_⟩
           by_cases he : fs' = []
           · simp [he, hsl, hol]
           · have : fs'.isEmpty = false := by cases fs' <;> simp_all
             simp only [this, Bool.false_eq_true, if_false, collLen]
-            exact RectFields.len fs' hrects (WFFs.headDef fs' hwffs he)
+            exact RectFields.len fs' hrects he
         · simp only [WFF]; exact ⟨hnd, hwffs⟩
-        · simp only [Field.nonEmpty]; exact hne
-theorem loop1_spec (us : Units) (n m : Nat) (deep : Bool) (selfKeys : List String) :
+theorem loop1_spec (us : Units) (n m : Nat) (selfKeys : List String) :
     ∀ (gs : List Field) (done : String → Prop) (acc : List Field) (s : St) (acc' : List Field) (s' : St),
     extendField.loop1 us selfKeys n acc gs s = .ok (acc', s') → MemoGood (n + m) s →
-    AccInv s.heap n m deep selfKeys done acc →
-    (∀ g ∈ gs, RectField s.heap m g ∧ WFF g ∧ (deep = true → g.nonEmpty)) → (names gs).Nodup →
+    AccInv s.heap n m selfKeys done acc →
+    (∀ g ∈ gs, RectField s.heap m g ∧ WFF g) → (names gs).Nodup →
     (∀ g ∈ gs, ¬ done g.name) →
-    ExtOK (n + m) s s' ∧ AccInv s'.heap n m deep selfKeys (fun x => done x ∨ x ∈ names gs) acc' ∧
-      (acc ≠ [] → acc' ≠ [])
+    ExtOK (n + m) s s' ∧ AccInv s'.heap n m selfKeys (fun x => done x ∨ x ∈ names gs) acc'
   | [], done, acc, s, acc', s', h, hm, inv, _, _, _ => by
     simp only [extendField.loop1, Except.ok.injEq, Prod.mk.injEq] at h
     obtain ⟨rfl, rfl⟩ := h
-    refine ⟨⟨HeapExt.refl _, hm⟩, ?_, id⟩
+    refine ⟨⟨HeapExt.refl _, hm⟩, ?_⟩
     have : (fun x => done x ∨ x ∈ names ([] : List Field)) = done := by funext x; simp [names]
     rw [this]; exact inv
   | g :: gs, done, acc, s, acc', s', h, hm, inv, hgs, hnd, hdone => by
@@ -469,38 +459,37 @@ theorem loop1_spec (us : Units) (n m : Nat) (deep : Bool) (selfKeys : List Strin
     split at h
     · simp at h
     · rename_i f1 s1 hstep
-      obtain ⟨hg_rect, hg_wff, hg_ne⟩ := hgs g (by simp)
+      obtain ⟨hg_rect, hg_wff⟩ := hgs g (by simp)
       have hgd : ¬ done g.name := hdone g (by simp)
       simp only [names, List.map_cons, List.nodup_cons] at hnd
       -- the field made for the name of `g`
-      have key : ExtOK (n + m) s s1 ∧ RectField s1.heap (n + m) f1 ∧ WFF f1 ∧ f1.name = g.name ∧
-          (deep = true → f1.nonEmpty) := by
+      have key : ExtOK (n + m) s s1 ∧ RectField s1.heap (n + m) f1 ∧ WFF f1 ∧ f1.name = g.name := by
         split at hstep
         · -- only in other (or self has no rows): a copy of `g` with `n` empty rows in front
           have hm' : MemoGood (m + n) s := by rw [Nat.add_comm]; exact hm
           obtain ⟨⟨e, mm⟩, r, sh⟩ := padField_spec true m n g s f1 s1 hstep hm' hg_rect hg_wff
           rw [Nat.add_comm] at mm r
-          exact ⟨⟨e, mm⟩, r, SameShape.wff g f1 sh hg_wff, sh.name, fun hd => sh.nonEmpty (hg_ne hd)⟩
+          exact ⟨⟨e, mm⟩, r, SameShape.wff g f1 sh hg_wff, sh.name⟩
         · split at hstep
           · simp at hstep
           · rename_i f hget
             obtain ⟨hfin, hfname⟩ := getField_some hget
-            obtain ⟨c1, c2, _, c4⟩ := inv.each f hfin
+            obtain ⟨c1, _, c4⟩ := inv.each f hfin
             have hfd : ¬ done f.name := by rw [hfname]; exact hgd
-            obtain ⟨e, r, w, nmq, ne⟩ := extendField_spec us n m g f s f1 s1 hstep hm (c4 hfd).1 hg_rect c1 hg_wff
-            exact ⟨e, r, w, by rw [nmq, hfname], fun hd => ne (c2 hd)⟩
-      obtain ⟨⟨e1, m1⟩, r1, w1, nm1, ne1⟩ := key
-      have inv1 := (inv.ext e1).step (f' := f1) (nm := g.name) nm1 w1 ne1 r1
-      obtain ⟨⟨e2, m2⟩, inv2, hne2⟩ := loop1_spec us n m deep selfKeys gs _ (setField acc f1) s1 acc' s' h m1 inv1
+            obtain ⟨e, r, w, nmq⟩ := extendField_spec us n m g f s f1 s1 hstep hm (c4 hfd).1 hg_rect c1 hg_wff
+            exact ⟨e, r, w, by rw [nmq, hfname]⟩
+      obtain ⟨⟨e1, m1⟩, r1, w1, nm1⟩ := key
+      have inv1 := (inv.ext e1).step (f' := f1) (nm := g.name) nm1 w1 r1
+      obtain ⟨⟨e2, m2⟩, inv2⟩ := loop1_spec us n m selfKeys gs _ (setField acc f1) s1 acc' s' h m1 inv1
         (fun g' hg' => by
-          obtain ⟨a, b, c⟩ := hgs g' (List.mem_cons_of_mem _ hg')
-          exact ⟨RectField.ext e1 g' a, b, c⟩)
+          obtain ⟨a, b⟩ := hgs g' (List.mem_cons_of_mem _ hg')
+          exact ⟨RectField.ext e1 g' a, b⟩)
         (by simpa [names] using hnd.2)
         (fun g' hg' hd => by
           rcases hd with hd | hd
           · exact hdone g' (List.mem_cons_of_mem _ hg') hd
           · exact hnd.1 (hd ▸ List.mem_map_of_mem hg'))
-      refine ⟨⟨e1.trans e2, m2⟩, ?_, fun _ => hne2 (setField_ne_nil acc f1)⟩
+      refine ⟨⟨e1.trans e2, m2⟩, ?_⟩
       have : (fun x => (done x ∨ x = g.name) ∨ x ∈ names gs) = (fun x => done x ∨ x ∈ names (g :: gs)) := by
         funext x; simp [names, or_assoc]
       rw [← this]; exact inv2
